@@ -21,7 +21,8 @@ SPEC = {
     "types": {"Tag": "Tag", "Version": "Version", "Error": "Unit", "KmsProtection": "Gen.KmsProtection",
               "Data": "Bytes", "Hash": "Bytes", "Nonce": "Bytes", "MsgVerifier": "Verifier",
               "MsgSigner": "Signer", "SystemTime": "Rs.Time", "Duration": "Rs.Time", "SocketAddr": "Nat",
-              "ServerStats": "(List Stats.Event)", "UdpSocket": "Gen.Sock", "Grease": "Gen.GreaseQ"},
+              "ServerStats": "(List Stats.Event)", "UdpSocket": "Gen.Sock", "Grease": "Gen.GreaseQ",
+              "KmsProvider": "Envelope.Kms", "KmsError": "Unit", "ServerConfig": "Config.Cfg"},
     # translated structs (fields of other types must be listed under skip_fields)
     "structs": {
         "RtMessage": {},
@@ -30,6 +31,8 @@ SPEC = {
         "ParsedResponse": {},
         "TagData": {},
         "VersionData": {},
+        "MsgSigner": {},
+        "MsgVerifier": {},
         "OnlineKey": {},
         "LongTermKey": {},
         "Responder": {"skip_fields": ["thread_id", "long_term_public_key"]},
@@ -37,6 +40,7 @@ SPEC = {
     "variants": {
         "Tag::*": "Tag.{v}",
         "Version::Google": "Version.google",
+        "KmsProtection::Plaintext": "true",
         "Version::RfcDraft13": "Version.ietf",
     },
     # calls that are not translated but mapped onto the hand model / prelude.
@@ -60,6 +64,39 @@ SPEC = {
         "MsgSigner::update": {"lean": "(Signer.update {self} {0})", "mutates": True},
         "MsgSigner::sign": {"lean": "(Signer.sign S {self}).2", "res": "(Signer.sign S {self}).1", "mutates": True},
         "MsgSigner::public_key_bytes": {"lean": "(Signer.publicKey S {self})"},
+        # ed25519-dalek behind src/sign.rs, inside the translated sign.rs itself: keys are their byte strings, the
+        # scheme is the parameter `S`
+        "SecretKey::try_from": {"lean": "(Rs.tryIntoArray {0} 32)", "result": True, "ret_rust": "SecretKey"},
+        "SigningKey::from": {"lean": "{0}", "ret_rust": "SigningKey"},
+        "SigningKey::sign": {"lean": "(S.sign {self} {0})"},
+        "SigningKey::verifying_key": {"lean": "(S.pk {self})", "ret_rust": "VerifyingKey"},
+        "VerifyingKey::from_bytes": {"lean": "(if S.pkValid {0} = true then Res.ok {0} else Res.err)", "result": True, "ret_rust": "VerifyingKey"},
+        "VerifyingKey::verify": {"lean": "(if S.verify {self} {0} {1} = true then Res.ok () else Res.err)", "result": True},
+        "Signature::from_slice": {"lean": "(Rs.tryIntoArray {0} 64)", "result": True, "ret_rust": "Signature"},
+        # ring::aead and the key-management provider behind src/kms/envelope.rs: the model's abstract `Aead` / `Kms`
+        "KmsProvider::decrypt_dek": {"lean": "(Rs.ofOpt (Envelope.Kms.unwrap {self} {0}))", "result": True},
+        "KmsProvider::encrypt_dek": {"lean": "(Rs.ofOpt (Envelope.Kms.wrap {self} {0}))", "result": True},
+        "Nonce::assume_unique_for_key": {"lean": "{0}", "ret_rust": "Nonce"},
+        "UnboundKey::new": {"lean": "(Rs.tryIntoArray {1} 32)", "result": True, "ret_rust": "UnboundKey"},
+        "LessSafeKey::new": {"lean": "{0}", "ret_rust": "LessSafeKey"},
+        "Aad::from": {"lean": "(strBytes {0})"},
+        "LessSafeKey::open_in_place": {"lean": "(Rs.ofOpt (A.openF {self} {0} {1} {2}))", "result": True},
+        # the `ServerConfig` trait object of config/mod.rs is the model's `Config.Cfg` record; the file system is `fs`
+        "ServerConfig::port": {"lean": "{self}.port"},
+        "ServerConfig::interface": {"lean": "{self}.interface"},
+        "ServerConfig::seed": {"lean": "{self}.seed"},
+        "ServerConfig::kms_protection": {"lean": "{self}.kmsPlain"},
+        "ServerConfig::batch_size": {"lean": "{self}.batchSize"},
+        "ServerConfig::fault_percentage": {"lean": "{self}.faultPct"},
+        "ServerConfig::num_workers": {"lean": "{self}.numWorkers"},
+        "ServerConfig::client_stats_enabled": {"lean": "{self}.clientStats"},
+        "ServerConfig::persistence_directory": {"lean": "{self}.persistDir"},
+        "ServerConfig::udp_socket_addr": {"lean": "(if Config.isIpv4 {self}.interface = true then Res.ok () else Res.err)", "result": True},
+        "PathBuf::is_dir": {"lean": "(fs.isDir {self})"},
+        "PathBuf::metadata": {"lean": "(if fs.pathExists {self} = true then Res.ok {self} else Res.err)", "result": True, "ret_rust": "Metadata"},
+        "Metadata::permissions": {"lean": "{self}", "ret_rust": "Permissions"},
+        "Permissions::readonly": {"lean": "(fs.readonly {self})"},
+        "PathBuf::display": {"lean": "{self}"},
         "SystemTime::duration_since": {"lean": "(Rs.durationSinceEpoch {self})", "result": True, "ret_rust": "Duration"},
         "Version::supported_versions_wire": {"lean": "Version.supportedWire"},
         # environment of send_responses (Rough/Gen/ServerExt.lean): clock reading, socket, fault injector, statistics
@@ -79,6 +116,29 @@ SPEC = {
             "file": "src/tag.rs",
             "keep_externs": True,
             "functions": {"Tag::data": {}, "Tag::wire_value": {}, "Tag::from_wire": {}, "Tag::is_nested": {}, "Tag::as_string": {}},
+        },
+        "Sign": {
+            "file": "src/sign.rs",
+            "keep_externs": True,
+            "params": [("S", "SigScheme")],
+            "types_override": {"MsgSigner": "Gen.MsgSigner", "MsgVerifier": "Gen.MsgVerifier", "SigningKey": "Bytes",
+                               "VerifyingKey": "Bytes", "SecretKey": "Bytes", "Signature": "Bytes"},
+            "functions": {"MsgSigner::from_seed": {}, "MsgSigner::update": {}, "MsgSigner::sign": {}, "MsgSigner::public_key_bytes": {},
+                          "MsgVerifier::new": {}, "MsgVerifier::update": {}, "MsgVerifier::verify": {}},
+        },
+        "Envelope": {
+            "file": "src/kms/envelope.rs",
+            "lean_imports": ["Rough.Model.Envelope"],
+            # the AEAD (ring AES-256-GCM) is a parameter; the provider is an argument
+            "params": [("A", "Envelope.Aead")],
+            "opaque_types": ["AES_256_GCM"],
+            "functions": {"vec_zero_filled": {"params": []}, "EnvelopeEncryption::decrypt_seed": {}},
+        },
+        "Config": {
+            "file": "src/config/mod.rs",
+            "lean_imports": ["Rough.Gen.ConfigExt"],
+            "params": [("fs", "Gen.Fs")],
+            "functions": {"is_valid_config": {}},
         },
         "Version": {
             "file": "src/version.rs",
@@ -194,9 +254,9 @@ SPEC = {
             },
         },
     },
-    "consts_extern": {"UNIX_EPOCH": "()"},
+    "consts_extern": {"UNIX_EPOCH": "()", "AES_256_GCM": "()"},
     # constants defined in other files that the modules refer to
-    "const_files": ["src/lib.rs", "src/request.rs", "src/message.rs", "src/merkle.rs", "src/tag.rs", "src/bin/roughenough-client.rs", "src/key/longterm.rs", "src/key/online.rs", "src/responder.rs", "src/version.rs"],
+    "const_files": ["src/lib.rs", "src/request.rs", "src/message.rs", "src/merkle.rs", "src/tag.rs", "src/bin/roughenough-client.rs", "src/key/longterm.rs", "src/key/online.rs", "src/responder.rs", "src/version.rs", "src/sign.rs", "src/kms/envelope.rs", "src/kms/mod.rs", "src/config/mod.rs"],
 }
 
 
@@ -241,10 +301,13 @@ def run(repo, outdir, report_path):
     os.makedirs(outdir, exist_ok=True)
     emitted_structs = set()
     emitted_consts = set()
+    all_const_lines = []
+    pending_files = []
     for mod, m in SPEC["modules"].items():
         rel = m["file"]
         out = []
         out.append("import Rough.Gen.Prelude")
+        out.append("import Rough.Generated.Src.Consts")
         for imp in m.get("imports", []):
             out.append(f"import Rough.Generated.Src.{imp}")
         for imp in m.get("lean_imports", []):
@@ -279,7 +342,7 @@ def run(repo, outdir, report_path):
                 fn_chunks.append([f"-- UNTRANSLATABLE {key}: {e}"])
         # structs used by this module (declared once, in the first module that needs them)
         tyem = Emitter.__new__(Emitter)
-        tyem.c = crate; tyem.self_type = None; tyem.file = os.path.basename(rel)
+        tyem.c = crate; tyem.self_type = None; tyem.file = os.path.basename(rel); tyem.key = next(iter(m["functions"]))
         for sname in SPEC["structs"]:
             if sname in emitted_structs: continue
             if sname in parsed.get(rel, {}).get("struct", {}):
@@ -310,7 +373,7 @@ def run(repo, outdir, report_path):
                     if kind == "const" and dep not in emitted_consts and dep not in done:
                         queue.insert(0, n); queue.insert(0, dep); break
                 else:
-                    const_lines.append(f"/-- `{n}` — {ce.file}:{c['line']} -/")
+                    const_lines.append(f"/-- `{n}` — {ce.file} -/")
                     const_lines.append(f"def Gen.{n} : {ty} := {t}")
                     done.append(n); modrep["constants"].append(n)
                     continue
@@ -319,7 +382,7 @@ def run(repo, outdir, report_path):
                 report["untranslatable"].append({"module": mod, "function": f"const {n}", "error": str(e)})
                 done.append(n)
         emitted_consts.update(done)
-        out += const_lines + ([""] if const_lines else [])
+        all_const_lines.extend(const_lines)
         out += body
         for pre in m.get("prelude", []):
             out.append(pre)
@@ -344,6 +407,13 @@ def run(repo, outdir, report_path):
             with open(path, "w") as f: f.write(text)
         modrep["changed"] = old != text
         report["modules"][mod] = modrep
+    # constants of /repo used by any translated function, in one module imported by all
+    ctext = "\n".join(["import Rough.Gen.Prelude",
+                       "/-! GENERATED by checklib/rs2lean from /repo's `const` items — do not edit; regenerated on every run. -/",
+                       "namespace Rough", ""] + all_const_lines + ["", "end Rough"]) + "\n"
+    cpath = os.path.join(outdir, "Consts.lean")
+    if (open(cpath).read() if os.path.exists(cpath) else None) != ctext:
+        with open(cpath, "w") as f: f.write(ctext)
     if report_path:
         with open(report_path, "w") as f: json.dump(report, f, indent=1)
     return report
